@@ -10,7 +10,8 @@ from .engine import SV, Exc, Raise, Unsupported, State, BoundMethod
 
 
 class LoopSpec:
-    def __init__(self, invariant=None, frame=None, decreases=None, lists=True, note="", ghost=(), single_iteration=None):
+    def __init__(self, invariant=None, frame=None, decreases=None, lists=True, note="", ghost=(), single_iteration=None, sets=False):
+        self.sets = sets  # the loop may change the content of Python set objects
         self.ghost = tuple(ghost)  # ghost variables (z3 terms in st.ghost) the loop may change
         self.single_iteration = single_iteration  # text: obligation that the back edge is unreachable
         self.invariant = invariant  # callable(LoopCtx) -> z3 Bool (or list of (name, Bool))
@@ -54,7 +55,8 @@ class SymIter:
 
 
 class LoopCtx:
-    def __init__(self, eng, st: State, fr: int, entry=None, index=None, seq=None):
+    def __init__(self, eng, st: State, fr: int, entry=None, index=None, seq=None, it=None):
+        self.it = it
         self.eng = eng
         self.st = st
         self.fr = fr
@@ -77,6 +79,9 @@ class LoopCtx:
 
     def list_of(self, obj_term):
         return z3.Select(self.st.lists, V.Val.a(obj_term))
+
+    def set_of(self, obj_term):
+        return z3.Select(self.st.sets, V.Val.a(obj_term))
 
     def ghost(self, name):
         return self.st.ghost.get(name)
@@ -157,6 +162,8 @@ def _havoc(eng, spec, body_nodes, st: State, fr: int, extra_names=()):
         st.field_array(f)
     if spec.lists:
         st.lists = z3.Const(V.fresh_name("lists"), st.lists.sort())
+    if spec.sets:
+        st.sets = z3.Const(V.fresh_name("sets"), st.sets.sort())
     for g in spec.ghost:
         cur = st.ghost.get(g)
         if cur is not None and z3.is_expr(cur):
@@ -166,7 +173,7 @@ def _havoc(eng, spec, body_nodes, st: State, fr: int, extra_names=()):
     return frame
 
 
-def _frame_obligations(eng, st_end: State, head: State, frame, line, lists_free):
+def _frame_obligations(eng, st_end: State, head: State, frame, line, lists_free, sets_free=False):
     for f, arr in st_end.heap.items():
         if f in frame:
             continue
@@ -177,6 +184,8 @@ def _frame_obligations(eng, st_end: State, head: State, frame, line, lists_free)
             eng.oblige(st_end, f"loop@{line} frame: field {f} unchanged by an iteration", arr == base, "loop-frame", line)
     if not lists_free and not z3.eq(st_end.lists, head.lists):
         eng.oblige(st_end, f"loop@{line} frame: list contents unchanged", st_end.lists == head.lists, "loop-frame", line)
+    if not sets_free and not z3.eq(st_end.sets, head.sets):
+        eng.oblige(st_end, f"loop@{line} frame: set contents unchanged", st_end.sets == head.sets, "loop-frame", line)
 
 
 def exec_while(eng, node, st: State, fr: int):
@@ -209,7 +218,7 @@ def exec_while(eng, node, st: State, fr: int):
                     if spec.single_iteration:
                         eng.oblige(st3, f"loop@{line}: {spec.single_iteration}", z3.BoolVal(False), "loop-termination", line)
                     _inv_obligations(eng, spec, ctx, st3, "preserved", line)
-                    _frame_obligations(eng, st3, head, frame, line, spec.lists)
+                    _frame_obligations(eng, st3, head, frame, line, spec.lists, spec.sets)
                     if dec0 is not None:
                         d1 = spec.decreases(ctx)
                         eng.oblige(st3, f"loop@{line} variant decreases and is bounded", z3.And(d1 < dec0, dec0 >= 0), "loop-variant", line)
@@ -315,6 +324,12 @@ def _as_symiter(eng, it, st):
             rs = list(eng.call(BoundMethod(it, m), [], {}, st))
             if len(rs) == 1 and isinstance(rs[0][1], SymIter):
                 return rs[0][1]
+    if isinstance(it, SV) and it.hint is None:
+        cases = list(eng.class_of(it, st.copy()))
+        if len(cases) == 1 and cases[0][1] not in (int, bool, float, str, type(None)):
+            pycls = cases[0][1]
+            st.assume(V.is_ref(it.t), V.cls_of(V.Val.a(it.t)) == eng.class_id(pycls))
+            return _as_symiter(eng, SV(it.t, hint=pycls), st)
     raise Unsupported(f"iteration over {it!r}")
 
 
@@ -342,13 +357,13 @@ def _for_invariant(eng, node, sym: SymIter, spec: LoopSpec, st: State, fr: int):
     line = node.lineno
     n = sym.length
     entry = st.copy()
-    entry_ctx = LoopCtx(eng, entry, fr, index=z3.IntVal(0), seq=sym.seq)
-    _inv_obligations(eng, spec, LoopCtx(eng, st, fr, entry=entry_ctx, index=z3.IntVal(0), seq=sym.seq), st, "holds on entry", line)
+    entry_ctx = LoopCtx(eng, entry, fr, index=z3.IntVal(0), seq=sym.seq, it=sym)
+    _inv_obligations(eng, spec, LoopCtx(eng, st, fr, entry=entry_ctx, index=z3.IntVal(0), seq=sym.seq, it=sym), st, "holds on entry", line)
     tnames = assigned_names([node.target])
     frame = _havoc(eng, spec, node.body, st, fr, extra_names=())
     i = V.fresh_int("i")
     st.assume(i >= 0, i <= n)
-    _inv_assume(spec, LoopCtx(eng, st, fr, entry=entry_ctx, index=i, seq=sym.seq), st)
+    _inv_assume(spec, LoopCtx(eng, st, fr, entry=entry_ctx, index=i, seq=sym.seq, it=sym), st)
     head = st.copy()
     for st2, more in eng.branch(i < n, st):
         if not more:
@@ -364,9 +379,9 @@ def _for_invariant(eng, node, sym: SymIter, spec: LoopSpec, st: State, fr: int):
                 continue
             for st4, ex in eng.exec_block(node.body, st3, fr):
                 if ex is None or ex[0] == "continue":
-                    ctx = LoopCtx(eng, st4, fr, entry=entry_ctx, index=i + 1, seq=sym.seq)
+                    ctx = LoopCtx(eng, st4, fr, entry=entry_ctx, index=i + 1, seq=sym.seq, it=sym)
                     _inv_obligations(eng, spec, ctx, st4, "preserved", line)
-                    _frame_obligations(eng, st4, head, frame, line, spec.lists)
+                    _frame_obligations(eng, st4, head, frame, line, spec.lists, spec.sets)
                 elif ex[0] == "break":
                     yield st4, None
                 else:
@@ -384,6 +399,33 @@ def comprehension(eng, node, st, fr, kind):
             yield st1, it
             continue
         items = _concrete_items(eng, it, st1)
+        if items is None and kind == "gen" and not gen.ifs:
+            # lazy map over a symbolic iterable: the element expression must be pure and non-forking
+            src = _as_symiter(eng, it, st1)
+
+            def item(eng_, st_, i, src=src):
+                v = src.item(eng_, st_, i)
+                saved_ = dict(st_.frames[fr].vars)
+                rs = list(eng_.assign(gen.target, v, st_, fr, node.lineno))
+                if len(rs) != 1 or rs[0][1] is not None:
+                    raise Unsupported("generator expression target does not bind uniformly")
+                out_ = list(eng_.eval(node.elt, st_, fr))
+                st_.frames[fr].vars.clear()
+                st_.frames[fr].vars.update(saved_)
+                if len(out_) != 1 or isinstance(out_[0][1], Raise):
+                    raise Unsupported("generator expression element forks or raises")
+                return out_[0][1]
+
+            res = SymIter(None, length=src.length, item=item, label="genexpr")
+            tgt = gen.target.id if isinstance(gen.target, ast.Name) else None
+            first = node.elt.elts[0] if isinstance(node.elt, ast.Tuple) and node.elt.elts else node.elt
+            res.distinct_keys = bool(getattr(src, "distinct_keys", False) and isinstance(first, ast.Name) and first.id == tgt)
+            res.src = src
+            res.pair_of_target = bool(
+                tgt is not None and isinstance(node.elt, ast.Tuple) and len(node.elt.elts) == 2 and all(isinstance(e, ast.Name) and e.id == tgt for e in node.elt.elts)
+            )
+            yield st1, res
+            continue
         if items is None:
             raise Unsupported(f"comprehension over symbolic iterable at line {node.lineno}")
         # comprehension scope: reuse the frame, restore the target names afterwards
